@@ -61,8 +61,8 @@ impl Wake for TaskWaker {
             let mut s = w.sched.lock().unwrap();
             if s.done[self.id] {
                 w.stale_wakes.fetch_add(1, Ordering::Relaxed);
-            } else {
-                s.ready.insert(self.id);
+            } else if s.ready.insert(self.id) {
+                s.queue.push_back(self.id);
             }
         }
     }
@@ -82,6 +82,11 @@ struct Slot {
 struct Sched {
     ready: BTreeSet<usize>,
     done: Vec<bool>,
+    /// the ready tasks in the order they were woken (run-queue order of a real executor)
+    queue: std::collections::VecDeque<usize>,
+    /// choose by run-queue order instead of by task id; a timer expiry fires every timer due at
+    /// that instant (as a timer wheel does)
+    fifo: bool,
 }
 
 #[derive(Default)]
@@ -172,6 +177,8 @@ pub struct World {
     net: Mutex<Net>,
     pub trace: Mutex<Vec<Ev>>,
     pub stale_wakes: AtomicU64,
+    /// most timers that expired together at one instant (fifo mode)
+    pub max_timer_batch: AtomicU64,
     pub keep_trace: bool,
     hasher: Mutex<std::collections::hash_map::DefaultHasher>,
     pub points: AtomicU64,
@@ -219,6 +226,7 @@ impl World {
             }),
             trace: Mutex::new(Vec::new()),
             stale_wakes: AtomicU64::new(0),
+            max_timer_batch: AtomicU64::new(0),
             keep_trace,
             hasher: Mutex::new(std::collections::hash_map::DefaultHasher::new()),
             points: AtomicU64::new(0),
@@ -267,7 +275,9 @@ impl World {
         {
             let mut s = self.sched.lock().unwrap();
             s.done.push(false);
-            s.ready.insert(id);
+            if s.ready.insert(id) {
+                s.queue.push_back(id);
+            }
         }
         self.record(Ev::Spawn { id });
         id
@@ -377,6 +387,20 @@ impl World {
             if let Some(w) = wk {
                 w.wake();
             }
+            if self.sched.lock().unwrap().fifo {
+                // everything else that is due at this instant expires with it
+                let now = self.base + self.vnow();
+                let due: Vec<u64> = { self.timers.lock().unwrap().map.iter().filter(|(_, (dl, w))| w.is_some() && *dl <= now).map(|(id, _)| *id).collect() };
+                let n = due.len() as u64 + 1;
+                self.max_timer_batch.fetch_max(n, Ordering::Relaxed);
+                for id in due {
+                    let wk = { self.timers.lock().unwrap().map.get_mut(&id).and_then(|e| e.1.take()) };
+                    self.record(Ev::Timer { id, at_us });
+                    if let Some(w) = wk {
+                        w.wake();
+                    }
+                }
+            }
         }
     }
 
@@ -388,7 +412,11 @@ impl World {
             s.polls += 1;
             (s.fut.take().expect("ready task has a future"), s.waker.clone())
         };
-        self.sched.lock().unwrap().ready.remove(&id);
+        {
+            let mut s = self.sched.lock().unwrap();
+            s.ready.remove(&id);
+            s.queue.retain(|x| *x != id);
+        }
         let prev = CURRENT.with(|c| c.replace(id));
         let mut cx = Context::from_waker(&waker);
         let r = catch_unwind(AssertUnwindSafe(|| fut.as_mut().poll(&mut cx)));
@@ -399,6 +427,7 @@ impl World {
                     let mut s = self.sched.lock().unwrap();
                     s.done[id] = true;
                     s.ready.remove(&id);
+                    s.queue.retain(|x| *x != id);
                 }
                 // handles captured by the task are released here, outside every harness lock
                 let prev = CURRENT.with(|c| c.replace(id));
@@ -434,7 +463,10 @@ impl World {
             if polls >= lim.max_polls {
                 return Stop::Steps;
             }
-            let ready: Vec<usize> = { self.sched.lock().unwrap().ready.iter().copied().collect() };
+            let ready: Vec<usize> = {
+                let s = self.sched.lock().unwrap();
+                if s.fifo { s.queue.iter().copied().collect() } else { s.ready.iter().copied().collect() }
+            };
             let wev = self.next_world_event();
             if !ready.is_empty() {
                 let p = self.points.fetch_add(1, Ordering::Relaxed);
@@ -489,6 +521,7 @@ impl World {
                 *d = true;
             }
             s.ready.clear();
+            s.queue.clear();
         }
         if leak {
             std::mem::forget(futs);
@@ -520,6 +553,11 @@ impl World {
     pub fn waker_refs(&self, id: usize) -> i64 {
         let t = self.tasks.lock().unwrap();
         Arc::strong_count(&t[id].wk) as i64 - 2
+    }
+
+    /// Run-queue (FIFO) scheduling and batched timer expiry, as real executors do
+    pub fn set_fifo(&self, on: bool) {
+        self.sched.lock().unwrap().fifo = on;
     }
 
     /// Receive offload emulation for the in-memory socket (see `Net::gro_segs`, `Net::burst`)
